@@ -17,7 +17,13 @@ H2 == {<<a, b>> : a \in Op, b \in Op}
 \* length 3: the first two calls in the same process on different programs, then any third call
 Op3 == IF Quick THEN {o \in Op : o.prog \in Core \/ o.target = "bash"} ELSE Op
 H3 == {<<a, b, c>> : a \in {o \in Op3 : o.mode = "same"}, b \in {o \in Op3 : o.mode \in {"same", "newobj"}}, c \in (IF Quick THEN {o \in Op3 : o.mode = "same"} ELSE {o \in Op : o.prog \in Core \/ o.target = "bash"})}
+\* long histories in one process: the first program again after N other, distinct programs (gen1 ... genN are written by the harness)
+LongN == IF Quick THEN {20, 300} ELSE {20, 100, 255, 256, 257, 300, 600}
+LongHist == {[id |-> "C14/long/" \o first \o "." \o tg \o "." \o md \o "/" \o ToString(n),
+              ops |-> <<[prog |-> first, target |-> tg, mode |-> "same"]>> \o [i \in 1..n |-> [prog |-> "gen" \o ToString(i), target |-> (IF i % 2 = 0 THEN "bash" ELSE "batch"), mode |-> md]]
+                      \o <<[prog |-> first, target |-> tg, mode |-> md], [prog |-> "gen1", target |-> "batch", mode |-> md], [prog |-> "gen" \o ToString(n), target |-> (IF n % 2 = 0 THEN "bash" ELSE "batch"), mode |-> md]>>]
+             : first \in {"plain", "stdmany", "shA"}, tg \in {"bash", "batch"}, md \in {"same", "newobj"}, n \in LongN}
 Name(h) == JoinS([i \in 1..Len(h) |-> OpName(h[i])], "-")
 Hist == {[id |-> "C14/h/" \o Name(h), ops |-> h] : h \in H1 \cup H2 \cup H3}
-ASSUME ndJsonSerialize("fam.ndjson", SetToSeq(Hist))
+ASSUME ndJsonSerialize("fam.ndjson", SetToSeq(Hist \cup LongHist))
 =============================================================================
